@@ -1,5 +1,1256 @@
 (* C16: the collisions reported by imports on a shared table are exactly the collisions of the
-   set of files, whatever the order and the partition (sequential sharing). *)
+   set of files, whatever the order and the partition (sequential sharing).
+
+   The proof characterises every table that is reached by successful imports only: it is the
+   table of a set S of installed files and a set Rg of registered packages (predicate Good). *)
 From Coq Require Import List NArith ZArith Bool Lia Arith Permutation.
 From PV Require Import Common.Corr Model.Symbols Proofs.Symbols.
 Import ListNotations.
+
+(* ------------------------------------------------------------------------------------------ *)
+(* names *)
+
+Definition parent (q : name) : name := removelast q.
+
+Lemma In_prefixes q n : In q (prefixes n) <-> q <> [] /\ exists r, n = q ++ r.
+Proof.
+  revert q. induction n as [|c n IH]; intros q; cbn [prefixes].
+  - split; [intros []|]. intros [H [r E]]. destruct q; [congruence|discriminate].
+  - split.
+    + intros [H|H].
+      * subst q. split; [discriminate|]. exists n. reflexivity.
+      * apply in_map_iff in H as [q' [E H]]. subst q. apply IH in H as [H1 [r E]].
+        split; [discriminate|]. exists r. cbn. now rewrite E.
+    + intros [H1 [r E]]. destruct q as [|x q]; [congruence|]. cbn in E. injection E as Ex En. subst x.
+      destruct q as [|y q]; [left; reflexivity|]. right. apply in_map_iff. exists (y :: q).
+      split; [reflexivity|]. apply IH. split; [discriminate|]. exists r. exact En.
+Qed.
+
+Lemma parent_snoc (c : name) x : parent (c ++ [x]) = c.
+Proof. apply removelast_last. Qed.
+
+Lemma snoc_neq (c : name) x : c ++ [x] <> c.
+Proof. intros E. apply (f_equal (@length N)) in E. rewrite app_length in E. cbn in E. lia. Qed.
+
+Lemma name_snoc_cases (q : name) : q = [] \/ exists c x, q = c ++ [x].
+Proof.
+  destruct q as [|a q]; [now left|]. right.
+  exists (removelast (a :: q)), (last (a :: q) 0%N). apply app_removelast_last. discriminate.
+Qed.
+
+Lemma prefixes_snoc_map base c r :
+  map (app base) (prefixes (c :: r)) = (base ++ [c]) :: map (app (base ++ [c])) (prefixes r).
+Proof.
+  cbn [prefixes map]. f_equal. rewrite map_map. apply map_ext. intros a. now rewrite <- app_assoc.
+Qed.
+
+Lemma map_app_nil (l : list name) : map (app []) l = l.
+Proof. induction l as [|a l IH]; [reflexivity|]. cbn [map]. rewrite IH. reflexivity. Qed.
+
+Lemma In_map_prefixes base rest q :
+  In q (map (app base) (prefixes rest)) <-> exists p, p <> [] /\ (exists r, rest = p ++ r) /\ q = base ++ p.
+Proof.
+  rewrite in_map_iff. split.
+  - intros [p [E H]]. apply In_prefixes in H as [H1 H2]. exists p. auto.
+  - intros [p [H1 [H2 E]]]. exists p. split; [auto|]. apply In_prefixes. auto.
+Qed.
+
+(* ------------------------------------------------------------------------------------------ *)
+(* the table of a set of installed files *)
+
+Definition ekey (x : name * name * Z * N) : name * Z := (snd (fst (fst x)), snd (fst x)).
+Definition efacts (f : file) : list (name * name * Z * N) := map (fun x => (x, ffid f)) (fexts f).
+Definition EF (S : list file) : list (name * name * Z * N) := flat_map efacts S.
+
+Record Good (U S : list file) (Rg : list name) (E : list (name * name * Z * N)) (T : table) : Prop := {
+  g_sub : forall f, In f S -> In f U;
+  g_dep : forall f d, In f S -> In d (closure f) -> In d S;
+  g_rg1 : forall q, In q Rg -> q <> [] /\ (parent q = [] \/ In (parent q) Rg);
+  g_rgS : forall f q, In f S -> In q (prefixes (fpkg f)) -> In q Rg;
+  g_cf1 : forall f f' n, In f S -> In f' S -> In n (fsyms f) -> In n (fsyms f') -> f = f';
+  g_cf2 : forall f q, In f S -> In q Rg -> ~ In q (fsyms f);
+  g_child : forall c q, In q (n_children (get_node T c)) <-> In q Rg /\ parent q = c;
+  g_sympkg : forall c n e, sym_find n (n_symbols (get_node T c)) = Some e -> e_pkg e = true ->
+                           In n (n_children (get_node T c));
+  g_pkgsym : forall c n, In n (n_children (get_node T c)) ->
+                         exists e, sym_find n (n_symbols (get_node T c)) = Some e /\ e_pkg e = true;
+  g_symfile : forall c n e, sym_find n (n_symbols (get_node T c)) = Some e -> e_pkg e = false ->
+                            exists f, In f S /\ fpkg f = c /\ In n (fsyms f) /\ e_owner e = ffid f;
+  g_filesym : forall f n, In f S -> In n (fsyms f) ->
+                          sym_find n (n_symbols (get_node T (fpkg f))) = Some (mkEntry (ffid f) false);
+  g_files : forall c i, In i (n_files (get_node T c)) <-> exists f, In f S /\ fpkg f = c /\ ffid f = i;
+  g_ext : forall c m t o, ext_find m t (n_exts (get_node T c)) = Some o <-> In (c, m, t, o) E;
+  g_Esrc : forall c m t o, In (c, m, t, o) E -> exists h, In h S /\ fpkg h = c /\ In m (fsyms h);
+  g_Ekeys : NoDup (map ekey E)
+}.
+
+Definition reg (Rg : list name) (c : name) : Prop := c = [] \/ In c Rg.
+
+Lemma good_empty U : Good U [] [] [] [].
+Proof.
+  constructor; cbn; try (intros; contradiction); try (intros; discriminate).
+  - intros c q. split; [intros []|intros [[] _]].
+  - intros c i. split; [intros []|intros [f [[] _]]].
+  - intros c m t o. split; [discriminate|intros []].
+  - constructor.
+Qed.
+
+Section good_facts.
+  Variables (U S : list file) (Rg : list name) (E : list (name * name * Z * N)) (T : table).
+  Hypothesis G : Good U S Rg E T.
+
+  (* registered packages are closed under non-empty prefixes *)
+  Lemma rg_prefix_closed : forall r q, q <> [] -> In (q ++ r) Rg -> In q Rg.
+  Proof.
+    induction r as [|x r IH] using rev_ind; intros q Hq H.
+    - now rewrite app_nil_r in H.
+    - rewrite app_assoc in H. destruct (g_rg1 _ _ _ _ _ G _ H) as [_ [Hp|Hp]]; rewrite parent_snoc in Hp.
+      + destruct q; [congruence|discriminate].
+      + now apply IH.
+  Qed.
+
+  Lemma reg_prefix_closed q r : reg Rg (q ++ r) -> reg Rg q.
+  Proof.
+    intros [H|H].
+    - left. now destruct q.
+    - destruct q as [|a q]; [now left|]. right. apply (rg_prefix_closed r); [discriminate|exact H].
+  Qed.
+
+  Lemma child_of_reg base c : In (base ++ [c]) Rg -> In (base ++ [c]) (n_children (get_node T base)).
+  Proof. intros H. apply (g_child _ _ _ _ _ G). split; [exact H|apply parent_snoc]. Qed.
+
+  (* getPackage on a registered path walks all the way *)
+  Lemma get_package_loop_reg ex : forall rest base,
+    (forall q, In q (map (app base) (prefixes rest)) -> In q Rg) ->
+    get_package_loop T base (map (app base) (prefixes rest)) ex = Some (base ++ rest).
+  Proof.
+    induction rest as [|c r IH]; intros base H.
+    - cbn. now rewrite app_nil_r.
+    - rewrite prefixes_snoc_map in *. cbn [get_package_loop].
+      assert (Hc : In (base ++ [c]) Rg) by (apply H; now left).
+      apply child_of_reg, mem_name_In in Hc. rewrite Hc.
+      rewrite IH; [now rewrite <- app_assoc|]. intros q Hq. apply H. now right.
+  Qed.
+
+  Lemma get_package_reg c ex : reg Rg c -> get_package T c ex = Some c.
+  Proof.
+    intros Hc. unfold get_package.
+    rewrite <- (map_app_nil (prefixes c)). rewrite get_package_loop_reg; [reflexivity|].
+    intros q Hq. rewrite map_app_nil in Hq. apply In_prefixes in Hq as [H1 [r E0]].
+    subst c. destruct Hc as [Hc|Hc].
+    - destruct q; [congruence|discriminate].
+    - now apply (rg_prefix_closed r).
+  Qed.
+
+  (* a name of an installed file that is a registered package prefix of some name: impossible *)
+  Lemma name_under_shorter_pkg f q x :
+    In f S -> names_closed f -> In (q ++ [x]) (fsyms f) -> reg Rg q -> fpkg f = q.
+  Proof.
+    intros Hf Hc Hn Hq. destruct (Hc _ Hn) as [r [Hr [En Hcl]]].
+    (* fpkg f ++ r = q ++ [x], r <> [] : fpkg f is a prefix of q *)
+    destruct (name_snoc_cases r) as [->|[r' [y ->]]]; [congruence|].
+    rewrite app_assoc in En. apply app_inj_tail in En as [Eq _].
+    destruct r' as [|a r']; [now rewrite app_nil_r in Eq|]. exfalso.
+    (* then q = fpkg f ++ a :: r' is a name of f and registered *)
+    assert (In q (fsyms f)).
+    { rewrite Eq. apply (Hcl (a :: r') [y]); [reflexivity|discriminate]. }
+    destruct Hq as [Hq|Hq].
+    - subst q. destruct (fpkg f); discriminate.
+    - exact (g_cf2 _ _ _ _ _ G f q Hf Hq H).
+  Qed.
+End good_facts.
+
+(* ------------------------------------------------------------------------------------------ *)
+(* registering one package component *)
+
+Definition name_dec : forall a b : name, {a = b} + {a <> b} := list_eq_dec N.eq_dec.
+
+Lemma sym_find_cons n q e l : sym_find n ((q, e) :: l) = if name_eqb n q then Some e else sym_find n l.
+Proof. reflexivity. Qed.
+
+Lemma good_register U S Rg E T cur x o :
+  Good U S Rg E T -> reg Rg cur -> ~ In (cur ++ [x]) Rg ->
+  (forall f, In f S -> ~ In (cur ++ [x]) (fsyms f)) ->
+  Good U S ((cur ++ [x]) :: Rg) E
+       (set_node (set_node T cur (add_child (add_symbol (get_node T cur) (cur ++ [x]) (mkEntry o true)) (cur ++ [x])))
+                 (cur ++ [x]) empty_node).
+Proof.
+  intros G Hcur Hnew Hnames.
+  set (q := cur ++ [x]) in *.
+  set (nd' := add_child (add_symbol (get_node T cur) q (mkEntry o true)) q).
+  set (T' := set_node (set_node T cur nd') q empty_node).
+  assert (Hqc : q <> cur) by apply snoc_neq.
+  assert (N1 : get_node T' q = empty_node) by apply get_node_set_same.
+  assert (N2 : get_node T' cur = nd').
+  { unfold T'. rewrite get_node_set. destruct (name_eqb cur q) eqn:E1.
+    - apply name_eqb_eq in E1. congruence.
+    - apply get_node_set_same. }
+  assert (N3 : forall c, c <> q -> c <> cur -> get_node T' c = get_node T c).
+  { intros c H1 H2. unfold T'. rewrite !get_node_set.
+    apply name_eqb_neq in H1, H2. now rewrite H1, H2. }
+  assert (Hpq : parent q = cur) by apply parent_snoc.
+  (* nothing lives at the new node *)
+  assert (NoS : forall f, In f S -> fpkg f <> q).
+  { intros f Hf Eq. apply Hnew. apply (g_rgS _ _ _ _ _ G f q Hf). apply In_prefixes.
+    split; [unfold q; destruct cur; discriminate|]. exists []. now rewrite app_nil_r. }
+  assert (NoC : forall q', In q' Rg -> parent q' <> q).
+  { intros q' Hq' Ep. destruct (g_rg1 _ _ _ _ _ G q' Hq') as [_ [H|H]]; rewrite Ep in H.
+    - unfold q in H. destruct cur; discriminate.
+    - contradiction. }
+  constructor.
+  - apply (g_sub _ _ _ _ _ G).
+  - apply (g_dep _ _ _ _ _ G).
+  - intros q' [<-|Hq'].
+    + split; [unfold q; destruct cur; discriminate|]. rewrite Hpq.
+      destruct Hcur as [->|Hc]; [now left|right; now right].
+    + destruct (g_rg1 _ _ _ _ _ G q' Hq') as [H1 [H2|H2]]; split; auto. right. now right.
+  - intros f q' Hf Hq'. right. exact (g_rgS _ _ _ _ _ G f q' Hf Hq').
+  - apply (g_cf1 _ _ _ _ _ G).
+  - intros f q' Hf [<-|Hq']; [now apply Hnames|exact (g_cf2 _ _ _ _ _ G f q' Hf Hq')].
+  - (* children *)
+    intros c q'. destruct (name_dec c q) as [->|Hq]; [|destruct (name_dec c cur) as [->|Hc]].
+    + rewrite N1. cbn. split; [intros []|]. intros [[<-|Hq'] Ep].
+      * congruence.
+      * exact (NoC q' Hq' Ep).
+    + rewrite N2. unfold nd'. cbn [add_child n_children]. split.
+      * intros [<-|H]; [split; [now left|exact Hpq]|].
+        apply (g_child _ _ _ _ _ G) in H as [H1 H2]. split; [now right|exact H2].
+      * intros [[<-|Hq'] Ep]; [now left|]. right. apply (g_child _ _ _ _ _ G). now split.
+    + rewrite (N3 c Hq Hc). rewrite (g_child _ _ _ _ _ G). split.
+      * intros [H1 H2]. split; [now right|exact H2].
+      * intros [[<-|Hq'] Ep]; [congruence|now split].
+  - (* pkg entry -> child *)
+    intros c n e. destruct (name_dec c q) as [->|Hq]; [|destruct (name_dec c cur) as [->|Hc]].
+    + rewrite N1. cbn. discriminate.
+    + rewrite N2. unfold nd'. cbn [add_child add_symbol n_symbols n_children]. rewrite sym_find_cons.
+      destruct (name_eqb n q) eqn:En.
+      * apply name_eqb_eq in En. subst n. intros _ _. now left.
+      * intros H1 H2. right. exact (g_sympkg _ _ _ _ _ G cur n e H1 H2).
+    + rewrite (N3 c Hq Hc). apply (g_sympkg _ _ _ _ _ G).
+  - (* child -> pkg entry *)
+    intros c n. destruct (name_dec c q) as [->|Hq]; [|destruct (name_dec c cur) as [->|Hc]].
+    + rewrite N1. cbn. intros [].
+    + rewrite N2. unfold nd'. cbn [add_child add_symbol n_symbols n_children]. rewrite sym_find_cons.
+      destruct (name_eqb n q) eqn:En.
+      * intros _. eexists. split; reflexivity.
+      * intros [<-|H]; [now rewrite name_eqb_refl in En|]. exact (g_pkgsym _ _ _ _ _ G cur n H).
+    + rewrite (N3 c Hq Hc). apply (g_pkgsym _ _ _ _ _ G).
+  - (* file entry -> file *)
+    intros c n e. destruct (name_dec c q) as [->|Hq]; [|destruct (name_dec c cur) as [->|Hc]].
+    + rewrite N1. cbn. discriminate.
+    + rewrite N2. unfold nd'. cbn [add_child add_symbol n_symbols]. rewrite sym_find_cons.
+      destruct (name_eqb n q) eqn:En.
+      * intros H1 H2. inversion H1; subst e. discriminate.
+      * apply (g_symfile _ _ _ _ _ G).
+    + rewrite (N3 c Hq Hc). apply (g_symfile _ _ _ _ _ G).
+  - (* file -> entry *)
+    intros f n Hf Hn. destruct (name_dec (fpkg f) q) as [Eq|Hq]; [|destruct (name_dec (fpkg f) cur) as [Ec|Hc]].
+    + exfalso. exact (NoS f Hf Eq).
+    + rewrite Ec, N2. unfold nd'. cbn [add_child add_symbol n_symbols]. rewrite sym_find_cons.
+      destruct (name_eqb n q) eqn:En.
+      * apply name_eqb_eq in En. subst n. exfalso. exact (Hnames f Hf Hn).
+      * rewrite <- Ec. exact (g_filesym _ _ _ _ _ G f n Hf Hn).
+    + rewrite (N3 _ Hq Hc). exact (g_filesym _ _ _ _ _ G f n Hf Hn).
+  - (* files *)
+    intros c i. destruct (name_dec c q) as [->|Hq]; [|destruct (name_dec c cur) as [->|Hc]].
+    + rewrite N1. cbn. split; [intros []|]. intros [f [Hf [Ef _]]]. exact (NoS f Hf Ef).
+    + rewrite N2. unfold nd'. cbn [add_child add_symbol n_files]. apply (g_files _ _ _ _ _ G).
+    + rewrite (N3 c Hq Hc). apply (g_files _ _ _ _ _ G).
+  - (* exts *)
+    intros c m t o'. destruct (name_dec c q) as [->|Hq]; [|destruct (name_dec c cur) as [->|Hc]].
+    + rewrite N1. cbn. split; [discriminate|]. intros H.
+      destruct (g_Esrc _ _ _ _ _ G _ _ _ _ H) as [h [Hh [Eh _]]]. exfalso. exact (NoS h Hh Eh).
+    + rewrite N2. unfold nd'. cbn [add_child add_symbol n_exts]. apply (g_ext _ _ _ _ _ G).
+    + rewrite (N3 c Hq Hc). apply (g_ext _ _ _ _ _ G).
+  - apply (g_Esrc _ _ _ _ _ G).
+  - apply (g_Ekeys _ _ _ _ _ G).
+Qed.
+
+(* ------------------------------------------------------------------------------------------ *)
+(* importPackages on a good table *)
+
+Lemma import_packages_loop_good U S E o :
+  (forall f, In f S -> names_closed f) ->
+  forall rest base T Rg T1 r1,
+  Good U S Rg E T -> reg Rg base ->
+  import_packages_loop T o base (map (app base) (prefixes rest)) = (T1, r1) ->
+  match r1 with
+  | PkgErr _ => exists q f, In q (map (app base) (prefixes rest)) /\ In f S /\ In q (fsyms f)
+  | PkgOk x =>
+    x = Some (base ++ rest) /\
+    exists Rg1, Good U S Rg1 E T1 /\
+                (forall q, In q Rg1 <-> In q Rg \/ In q (map (app base) (prefixes rest)))
+  end.
+Proof.
+  intros Hcl. induction rest as [|c r IH]; intros base T Rg T1 r1 G Hbase.
+  - cbn. intros H. inversion H; subst. rewrite app_nil_r. split; [reflexivity|].
+    exists Rg. split; [exact G|]. intros q. tauto.
+  - rewrite prefixes_snoc_map. cbn [import_packages_loop]. unfold import_package.
+    set (q := base ++ [c]).
+    assert (Hnone : sym_find q (n_symbols (get_node T base)) = None ->
+                    (forall f, In f S -> ~ In q (fsyms f)) /\ ~ In q Rg).
+    { intros Hn. split.
+      - intros f Hf Hq. pose proof (name_under_shorter_pkg _ _ _ _ _ G f base c Hf (Hcl f Hf) Hq Hbase) as Ep.
+        pose proof (g_filesym _ _ _ _ _ G f q Hf Hq) as Hs. rewrite Ep, Hn in Hs. discriminate.
+      - intros Hq. apply (child_of_reg _ _ _ _ _ G) in Hq.
+        destruct (g_pkgsym _ _ _ _ _ G base q Hq) as [e [He _]]. rewrite Hn in He. discriminate. }
+    destruct (sym_find q (n_symbols (get_node T base))) as [e|] eqn:Es.
+    + destruct (e_pkg e) eqn:Ep.
+      * pose proof (g_sympkg _ _ _ _ _ G base q e Es Ep) as Hch.
+        assert (HqRg : In q Rg) by (apply (g_child _ _ _ _ _ G) in Hch; tauto).
+        apply mem_name_In in Hch. rewrite Hch. intros Hl.
+        pose proof (IH q T Rg T1 r1 G (or_intror HqRg) Hl) as I. destruct r1 as [x|e1].
+        -- destruct I as [E1 [Rg1 [G1 HR]]]. split; [rewrite E1; unfold q; now rewrite <- app_assoc|].
+           exists Rg1. split; [exact G1|]. intros q'. rewrite HR. cbn [In]. split; [tauto|].
+           intros [H|[<-|H]]; auto.
+        -- destruct I as [q' [f [H1 H2]]]. exists q', f. split; [now right|exact H2].
+      * intros H. inversion H; subst.
+        destruct (g_symfile _ _ _ _ _ G base q e Es Ep) as [f [Hf [_ [Hn _]]]].
+        exists q, f. split; [now left|auto].
+    + destruct (Hnone eq_refl) as [Hnames HnRg]. intros Hl.
+      pose proof (good_register U S Rg E T base c o G Hbase HnRg Hnames) as G'.
+      pose proof (IH q _ (q :: Rg) T1 r1 G' (or_intror (or_introl eq_refl)) Hl) as I. destruct r1 as [x|e1].
+      * destruct I as [E1 [Rg1 [G1 HR]]]. split; [rewrite E1; unfold q; now rewrite <- app_assoc|].
+        exists Rg1. split; [exact G1|]. intros q'. rewrite HR. cbn [In]. tauto.
+      * destruct I as [q' [f [H1 H2]]]. exists q', f. split; [now right|exact H2].
+Qed.
+
+Lemma import_packages_good U S Rg E T o pkg T1 r1 :
+  (forall f, In f S -> names_closed f) ->
+  Good U S Rg E T ->
+  import_packages T o pkg = (T1, r1) ->
+  match r1 with
+  | PkgErr _ => exists q f, In q (prefixes pkg) /\ In f S /\ In q (fsyms f)
+  | PkgOk x =>
+    x = Some pkg /\
+    exists Rg1, Good U S Rg1 E T1 /\ (forall q, In q Rg1 <-> In q Rg \/ In q (prefixes pkg))
+  end.
+Proof.
+  intros Hcl G. unfold import_packages. rewrite <- (map_app_nil (prefixes pkg)) at 1.
+  intros H. pose proof (import_packages_loop_good U S E o Hcl pkg [] T Rg T1 r1 G (or_introl eq_refl) H) as L.
+  rewrite map_app_nil in L. exact L.
+Qed.
+
+(* ------------------------------------------------------------------------------------------ *)
+(* check-then-commit of the names of a file on a good table *)
+
+Lemma check_syms_none syms tbl :
+  check_syms syms tbl = None <-> forall x, In x syms -> sym_find x tbl = None.
+Proof.
+  induction syms as [|x r IH]; cbn [check_syms].
+  - split; [intros _ x []|reflexivity].
+  - destruct (sym_find x tbl) eqn:E.
+    + split; [discriminate|]. intros H. rewrite (H x (or_introl eq_refl)) in E. discriminate.
+    + rewrite IH. split.
+      * intros H y [<-|Hy]; auto.
+      * intros H y Hy. apply H. now right.
+Qed.
+
+Lemma sym_find_commit n fid syms : forall nd,
+  sym_find n (n_symbols (commit_syms nd fid syms)) =
+  if mem_name n syms then Some (mkEntry fid false) else sym_find n (n_symbols nd).
+Proof.
+  unfold commit_syms. induction syms as [|x r IH]; intros nd; cbn [fold_left mem_name]; [reflexivity|].
+  rewrite IH. cbn [add_symbol n_symbols]. rewrite sym_find_cons.
+  destruct (mem_name n r); [now rewrite orb_true_r|]. rewrite orb_false_r.
+  destruct (name_eqb n x); reflexivity.
+Qed.
+
+(* routing: if a name of g clashes with anything registered anywhere, then some name of g is
+   found in the node of g's own package *)
+Lemma clash_routed U S Rg E T g :
+  Good U S Rg E T -> (forall f, In f S -> names_closed f) -> names_closed g ->
+  (forall q, In q (prefixes (fpkg g)) -> In q Rg) ->
+  (exists n, In n (fsyms g) /\ ((exists f, In f S /\ In n (fsyms f)) \/ In n Rg)) ->
+  exists n', In n' (fsyms g) /\ sym_find n' (n_symbols (get_node T (fpkg g))) <> None.
+Proof.
+  intros G HclS Hclg Hpk [n [Hn Hc]].
+  destruct (Hclg n Hn) as [rg [Hrg [En Hg]]].
+  assert (Hfirst : forall a l, rg = a :: l -> In (fpkg g ++ [a]) (fsyms g)).
+  { intros a l ->. apply (Hg [a] l); [reflexivity|discriminate]. }
+  assert (Hchild : forall a, In (fpkg g ++ [a]) Rg ->
+                             sym_find (fpkg g ++ [a]) (n_symbols (get_node T (fpkg g))) <> None).
+  { intros a Ha. apply (child_of_reg _ _ _ _ _ G) in Ha.
+    destruct (g_pkgsym _ _ _ _ _ G _ _ Ha) as [e [He _]]. congruence. }
+  destruct Hc as [[f [Hf Hnf]]|HnRg].
+  - destruct (HclS f Hf n Hnf) as [rf [Hrf [Ef Hcf]]].
+    rewrite En in Ef. apply app_eq_app in Ef as [l [[E1 E2]|[E1 E2]]].
+    + (* fpkg g = fpkg f ++ l *)
+      destruct l as [|a l].
+      * rewrite app_nil_r in E1. exists n. split; [exact Hn|].
+        pose proof (g_filesym _ _ _ _ _ G f n Hf Hnf) as Hs. rewrite <- E1 in Hs. congruence.
+      * exfalso. apply (g_cf2 _ _ _ _ _ G f (fpkg f ++ [a]) Hf).
+        -- apply Hpk. apply In_prefixes. split; [destruct (fpkg f); discriminate|].
+           exists l. rewrite E1. now rewrite <- app_assoc.
+        -- apply (Hcf [a] (l ++ rg)); [now rewrite E2|discriminate].
+    + (* fpkg f = fpkg g ++ l *)
+      destruct l as [|a l].
+      * rewrite app_nil_r in E1. exists n. split; [exact Hn|].
+        pose proof (g_filesym _ _ _ _ _ G f n Hf Hnf) as Hs. rewrite E1 in Hs. congruence.
+      * exists (fpkg g ++ [a]). split; [apply (Hfirst a (l ++ rf)); exact E2|].
+        apply Hchild. apply (g_rgS _ _ _ _ _ G f _ Hf). apply In_prefixes.
+        split; [destruct (fpkg g); discriminate|]. exists l. rewrite E1. now rewrite <- app_assoc.
+  - destruct rg as [|a l]; [congruence|].
+    exists (fpkg g ++ [a]). split; [now apply (Hfirst a l)|]. apply Hchild.
+    apply (rg_prefix_closed _ _ _ _ _ G l); [destruct (fpkg g); discriminate|].
+    rewrite <- app_assoc. cbn. now rewrite <- En.
+Qed.
+
+Lemma good_commit U S Rg E T g :
+  Good U S Rg E T -> In g U ->
+  (forall q, In q (prefixes (fpkg g)) -> In q Rg) ->
+  (forall d, In d (closure g) -> d = g \/ In d S) ->
+  (forall n, In n (fsyms g) -> (forall f, In f S -> ~ In n (fsyms f)) /\ ~ In n Rg) ->
+  check_syms (fsyms g) (n_symbols (get_node T (fpkg g))) = None /\
+  Good U (S ++ [g]) Rg E
+       (set_node T (fpkg g) (add_file (commit_syms (get_node T (fpkg g)) (ffid g) (fsyms g)) (ffid g))).
+Proof.
+  intros G HgU Hpk Hdeps Hno.
+  set (c := fpkg g). set (T' := set_node T c _).
+  assert (N1 : get_node T' c = add_file (commit_syms (get_node T c) (ffid g) (fsyms g)) (ffid g))
+    by apply get_node_set_same.
+  assert (N2 : forall c', c' <> c -> get_node T' c' = get_node T c').
+  { intros c' H. unfold T'. rewrite get_node_set. apply name_eqb_neq in H. now rewrite H. }
+  assert (Hchk : forall x, In x (fsyms g) -> sym_find x (n_symbols (get_node T c)) = None).
+  { intros x Hx. destruct (sym_find x (n_symbols (get_node T c))) as [e|] eqn:Es; [|reflexivity].
+    exfalso. destruct (Hno x Hx) as [H1 H2]. destruct (e_pkg e) eqn:Ep.
+    - apply H2. pose proof (g_sympkg _ _ _ _ _ G c x e Es Ep) as Hch.
+      apply (g_child _ _ _ _ _ G) in Hch. tauto.
+    - destruct (g_symfile _ _ _ _ _ G c x e Es Ep) as [f [Hf [_ [Hn _]]]]. exact (H1 f Hf Hn). }
+  split; [apply check_syms_none; exact Hchk|].
+  constructor.
+  - intros f Hf. apply in_app_iff in Hf as [Hf|[<-|[]]]; [exact (g_sub _ _ _ _ _ G f Hf)|exact HgU].
+  - intros f d Hf Hd. apply in_app_iff. apply in_app_iff in Hf as [Hf|[<-|[]]].
+    + left. exact (g_dep _ _ _ _ _ G f d Hf Hd).
+    + destruct (Hdeps d Hd) as [->|H]; [right; now left|now left].
+  - apply (g_rg1 _ _ _ _ _ G).
+  - intros f q Hf Hq. apply in_app_iff in Hf as [Hf|[<-|[]]]; [exact (g_rgS _ _ _ _ _ G f q Hf Hq)|now apply Hpk].
+  - intros f f' n Hf Hf' Hn Hn'.
+    apply in_app_iff in Hf as [Hf|[<-|[]]]; apply in_app_iff in Hf' as [Hf'|[<-|[]]].
+    + exact (g_cf1 _ _ _ _ _ G f f' n Hf Hf' Hn Hn').
+    + exfalso. exact (proj1 (Hno n Hn') f Hf Hn).
+    + exfalso. exact (proj1 (Hno n Hn) f' Hf' Hn').
+    + reflexivity.
+  - intros f q Hf Hq. apply in_app_iff in Hf as [Hf|[<-|[]]]; [exact (g_cf2 _ _ _ _ _ G f q Hf Hq)|].
+    intros Hn. exact (proj2 (Hno q Hn) Hq).
+  - intros c' q. destruct (name_dec c' c) as [->|Hc].
+    + rewrite N1. cbn [add_file n_children]. rewrite commit_syms_children. apply (g_child _ _ _ _ _ G).
+    + rewrite (N2 c' Hc). apply (g_child _ _ _ _ _ G).
+  - intros c' n e. destruct (name_dec c' c) as [->|Hc].
+    + rewrite N1. cbn [add_file n_children n_symbols]. rewrite commit_syms_children, sym_find_commit.
+      destruct (mem_name n (fsyms g)).
+      * intros H1 H2. inversion H1; subst e. discriminate.
+      * apply (g_sympkg _ _ _ _ _ G).
+    + rewrite (N2 c' Hc). apply (g_sympkg _ _ _ _ _ G).
+  - intros c' n. destruct (name_dec c' c) as [->|Hc].
+    + rewrite N1. cbn [add_file n_children n_symbols]. rewrite commit_syms_children, sym_find_commit.
+      intros Hch. destruct (mem_name n (fsyms g)) eqn:Em.
+      * exfalso. apply mem_name_In in Em. apply (proj2 (Hno n Em)).
+        apply (g_child _ _ _ _ _ G) in Hch. tauto.
+      * exact (g_pkgsym _ _ _ _ _ G c n Hch).
+    + rewrite (N2 c' Hc). apply (g_pkgsym _ _ _ _ _ G).
+  - intros c' n e. destruct (name_dec c' c) as [->|Hc].
+    + rewrite N1. cbn [add_file n_symbols]. rewrite sym_find_commit.
+      destruct (mem_name n (fsyms g)) eqn:Em.
+      * intros H1 _. inversion H1; subst e. exists g. cbn. apply mem_name_In in Em.
+        repeat split; auto. apply in_app_iff. right. now left.
+      * intros H1 H2. destruct (g_symfile _ _ _ _ _ G c n e H1 H2) as [f [Hf H3]].
+        exists f. split; [apply in_app_iff; now left|exact H3].
+    + rewrite (N2 c' Hc). intros H1 H2. destruct (g_symfile _ _ _ _ _ G c' n e H1 H2) as [f [Hf H3]].
+      exists f. split; [apply in_app_iff; now left|exact H3].
+  - intros f n Hf Hn. apply in_app_iff in Hf as [Hf|[<-|[]]].
+    + destruct (name_dec (fpkg f) c) as [Ec|Hc].
+      * rewrite Ec, N1. cbn [add_file n_symbols]. rewrite sym_find_commit.
+        destruct (mem_name n (fsyms g)) eqn:Em.
+        -- exfalso. apply mem_name_In in Em. exact (proj1 (Hno n Em) f Hf Hn).
+        -- rewrite <- Ec. exact (g_filesym _ _ _ _ _ G f n Hf Hn).
+      * rewrite (N2 _ Hc). exact (g_filesym _ _ _ _ _ G f n Hf Hn).
+    + fold c. rewrite N1. cbn [add_file n_symbols]. rewrite sym_find_commit.
+      apply mem_name_In in Hn. now rewrite Hn.
+  - intros c' i. destruct (name_dec c' c) as [->|Hc].
+    + rewrite N1. cbn [add_file n_files]. rewrite commit_syms_files. split.
+      * intros [<-|Hi].
+        -- exists g. repeat split; auto. apply in_app_iff. right. now left.
+        -- apply (g_files _ _ _ _ _ G) in Hi as [f [Hf H3]]. exists f. split; [apply in_app_iff; now left|exact H3].
+      * intros [f [Hf [H1 H2]]]. apply in_app_iff in Hf as [Hf|[<-|[]]]; [|now left].
+        right. apply (g_files _ _ _ _ _ G). exists f. auto.
+    + rewrite (N2 c' Hc). rewrite (g_files _ _ _ _ _ G). split.
+      * intros [f [Hf H3]]. exists f. split; [apply in_app_iff; now left|exact H3].
+      * intros [f [Hf [H1 H2]]]. apply in_app_iff in Hf as [Hf|[<-|[]]]; [exists f; auto|].
+        exfalso. apply Hc. now rewrite <- H1.
+  - intros c' m t o. destruct (name_dec c' c) as [->|Hc].
+    + rewrite N1. cbn [add_file n_exts]. rewrite commit_syms_exts. apply (g_ext _ _ _ _ _ G).
+    + rewrite (N2 c' Hc). apply (g_ext _ _ _ _ _ G).
+  - intros c' m t o H. destruct (g_Esrc _ _ _ _ _ G _ _ _ _ H) as [h [Hh H3]].
+    exists h. split; [apply in_app_iff; now left|exact H3].
+  - apply (g_Ekeys _ _ _ _ _ G).
+Qed.
+
+(* ------------------------------------------------------------------------------------------ *)
+(* registering extension numbers on a good table *)
+
+Lemma is_prefix_app (c r : name) : is_prefix c (c ++ r) = true.
+Proof. induction c as [|a c IH]; cbn; [reflexivity|]. now rewrite N.eqb_refl, IH. Qed.
+
+Lemma proper_prefix_app (c r : name) : r <> [] -> proper_prefix c (c ++ r) = true.
+Proof.
+  intros Hr. unfold proper_prefix. rewrite is_prefix_app. cbn. apply Nat.ltb_lt.
+  rewrite app_length. destruct r; [congruence|cbn; lia].
+Qed.
+
+Lemma NoDup_snoc {A : Type} (l : list A) a : NoDup l -> ~ In a l -> NoDup (l ++ [a]).
+Proof.
+  induction l as [|b l IH]; intros Hl Ha; cbn; [constructor; [intros []|constructor]|].
+  inversion Hl; subst. constructor.
+  - rewrite in_app_iff. intros [H|[H|[]]]; [contradiction|]. subst. apply Ha. now left.
+  - apply IH; [assumption|]. intros H. apply Ha. now right.
+Qed.
+
+Lemma not_NoDup_app_in {A : Type} (l l' : list A) a : In a l -> ~ NoDup (l ++ a :: l').
+Proof.
+  induction l as [|b l IH]; intros Ha Hn; [contradiction|]. cbn in Hn. inversion Hn; subst.
+  destruct Ha as [->|Ha]; [|now apply IH].
+  apply H1. apply in_app_iff. right. now left.
+Qed.
+
+Lemma NoDup_app_intro {A : Type} (l1 l2 : list A) :
+  NoDup l1 -> NoDup l2 -> (forall x, In x l1 -> ~ In x l2) -> NoDup (l1 ++ l2).
+Proof.
+  induction l1 as [|a l1 IH]; intros H1 H2 Hd; cbn; [exact H2|].
+  inversion H1; subst. constructor.
+  - rewrite in_app_iff. intros [H|H]; [contradiction|]. apply (Hd a); [now left|exact H].
+  - apply IH; auto. intros x Hx. apply Hd. now right.
+Qed.
+
+Lemma NoDup_app_elim {A : Type} (l1 l2 : list A) :
+  NoDup (l1 ++ l2) -> NoDup l1 /\ NoDup l2 /\ (forall x, In x l1 -> ~ In x l2).
+Proof.
+  induction l1 as [|a l1 IH]; cbn; intros H.
+  - repeat split; [constructor|exact H|intros x []].
+  - inversion H; subst. destruct (IH H3) as [H4 [H5 H6]]. repeat split.
+    + constructor; [|exact H4]. intros Ha. apply H2. apply in_app_iff. now left.
+    + exact H5.
+    + intros x [<-|Hx]; [|now apply H6]. intros Hx. apply H2. apply in_app_iff. now right.
+Qed.
+
+Lemma ext_find_cons m t m' t' o l :
+  ext_find m t ((m', t', o) :: l) = if name_eqb m m' && Z.eqb t t' then Some o else ext_find m t l.
+Proof. reflexivity. Qed.
+
+Lemma key_eqb_true m t m' t' : name_eqb m m' && Z.eqb t t' = true <-> (m, t) = (m', t').
+Proof.
+  rewrite andb_true_iff, name_eqb_eq, Z.eqb_eq. split; [intros [-> ->]; reflexivity|intros H; inversion H; auto].
+Qed.
+
+Lemma good_add_ext U S Rg E T c m t o h :
+  Good U S Rg E T -> In h S -> fpkg h = c -> In m (fsyms h) -> names_closed h ->
+  (In (m, t) (map ekey E) -> add_extension T c m t o = (T, Err (EExt m t))) /\
+  (~ In (m, t) (map ekey E) ->
+   exists T', add_extension T c m t o = (T', Ok) /\ Good U S Rg (E ++ [(c, m, t, o)]) T').
+Proof.
+  intros G Hh Ec Hm Hcl.
+  assert (Hreg : reg Rg c).
+  { destruct c as [|a c]; [now left|]. right. apply (g_rgS _ _ _ _ _ G h _ Hh). rewrite Ec.
+    apply In_prefixes. split; [discriminate|]. exists []. now rewrite app_nil_r. }
+  assert (Hpre : negb (name_eqb c []) && negb (proper_prefix c m) = false).
+  { destruct (Hcl m Hm) as [r [Hr [En _]]]. rewrite Ec in En. subst m.
+    rewrite proper_prefix_app by exact Hr. cbn. apply andb_false_r. }
+  unfold add_extension. rewrite Hpre, (get_package_reg _ _ _ _ _ G c true Hreg). unfold add_ext_node.
+  split.
+  - intros Hk. apply in_map_iff in Hk as [[[[c' m'] t'] o'] [Ek Hin]]. cbn in Ek. inversion Ek; subst m' t'.
+    destruct (g_Esrc _ _ _ _ _ G _ _ _ _ Hin) as [h' [Hh' [Ec' Hm']]].
+    assert (h = h') by exact (g_cf1 _ _ _ _ _ G h h' m Hh Hh' Hm Hm'). subst h'.
+    rewrite Ec in Ec'. subst c'. apply (g_ext _ _ _ _ _ G) in Hin. now rewrite Hin.
+  - intros Hk.
+    assert (Hnone : ext_find m t (n_exts (get_node T c)) = None).
+    { destruct (ext_find m t (n_exts (get_node T c))) as [o'|] eqn:Ef; [|reflexivity]. exfalso.
+      apply (g_ext _ _ _ _ _ G) in Ef. apply Hk. apply in_map_iff. exists (c, m, t, o'). now split. }
+    rewrite Hnone. eexists. split; [reflexivity|].
+    set (T' := set_node T c (add_ext (get_node T c) m t o)).
+    assert (N1 : get_node T' c = add_ext (get_node T c) m t o) by apply get_node_set_same.
+    assert (N2 : forall c', c' <> c -> get_node T' c' = get_node T c').
+    { intros c' H. unfold T'. rewrite get_node_set. apply name_eqb_neq in H. now rewrite H. }
+    constructor.
+    + apply (g_sub _ _ _ _ _ G).
+    + apply (g_dep _ _ _ _ _ G).
+    + apply (g_rg1 _ _ _ _ _ G).
+    + apply (g_rgS _ _ _ _ _ G).
+    + apply (g_cf1 _ _ _ _ _ G).
+    + apply (g_cf2 _ _ _ _ _ G).
+    + intros c' q. destruct (name_dec c' c) as [->|Hc]; [rewrite N1|rewrite (N2 c' Hc)]; apply (g_child _ _ _ _ _ G).
+    + intros c' n e. destruct (name_dec c' c) as [->|Hc]; [rewrite N1|rewrite (N2 c' Hc)]; apply (g_sympkg _ _ _ _ _ G).
+    + intros c' n. destruct (name_dec c' c) as [->|Hc]; [rewrite N1|rewrite (N2 c' Hc)]; apply (g_pkgsym _ _ _ _ _ G).
+    + intros c' n e. destruct (name_dec c' c) as [->|Hc]; [rewrite N1|rewrite (N2 c' Hc)]; apply (g_symfile _ _ _ _ _ G).
+    + intros f n Hf Hn. destruct (name_dec (fpkg f) c) as [Ecf|Hc].
+      * rewrite Ecf, N1. cbn [add_ext n_symbols]. rewrite <- Ecf. exact (g_filesym _ _ _ _ _ G f n Hf Hn).
+      * rewrite (N2 _ Hc). exact (g_filesym _ _ _ _ _ G f n Hf Hn).
+    + intros c' i. destruct (name_dec c' c) as [->|Hc]; [rewrite N1|rewrite (N2 c' Hc)]; apply (g_files _ _ _ _ _ G).
+    + intros c' m' t' o'. rewrite in_app_iff. destruct (name_dec c' c) as [->|Hc].
+      * rewrite N1. cbn [add_ext n_exts]. rewrite ext_find_cons.
+        destruct (name_eqb m' m && Z.eqb t' t) eqn:Ek.
+        -- apply key_eqb_true in Ek. inversion Ek; subst m' t'. split.
+           ++ intros H. inversion H; subst o'. right. now left.
+           ++ intros [H|[H|[]]].
+              ** exfalso. apply Hk. apply in_map_iff. exists (c, m, t, o'). now split.
+              ** now inversion H.
+        -- rewrite (g_ext _ _ _ _ _ G). split; [now left|]. intros [H|[H|[]]]; [exact H|].
+           inversion H; subst. rewrite name_eqb_refl, Z.eqb_refl in Ek. discriminate.
+      * rewrite (N2 c' Hc). rewrite (g_ext _ _ _ _ _ G). split; [now left|].
+        intros [H|[H|[]]]; [exact H|]. inversion H; subst. congruence.
+    + intros c' m' t' o' H. apply in_app_iff in H as [H|[H|[]]]; [exact (g_Esrc _ _ _ _ _ G _ _ _ _ H)|].
+      inversion H; subst. exists h. auto.
+    + rewrite map_app. cbn [map ekey fst snd]. apply NoDup_snoc; [exact (g_Ekeys _ _ _ _ _ G)|exact Hk].
+Qed.
+
+Definition key3 (x : name * name * Z) : name * Z := (snd (fst x), snd x).
+
+Definition key_dec : forall a b : name * Z, {a = b} + {a <> b}.
+Proof. decide equality; [apply Z.eq_dec|apply name_dec]. Defined.
+
+Lemma add_exts_good U S Rg o :
+  (forall f, In f S -> names_closed f) ->
+  forall exts E T T' r,
+  Good U S Rg E T ->
+  (forall c m t, In (c, m, t) exts -> exists h, In h S /\ fpkg h = c /\ In m (fsyms h)) ->
+  add_exts T o exts = (T', r) ->
+  (r = Ok <-> NoDup (map ekey E ++ map key3 exts)) /\
+  (r = Ok -> Good U S Rg (E ++ map (fun x => (x, o)) exts) T').
+Proof.
+  intros Hcl. induction exts as [|[[c m] t] rest IH]; intros E T T' r G Hsrc; cbn [add_exts].
+  - intros H. inversion H; subst. cbn [map]. rewrite !app_nil_r. split.
+    + split; [intros _; exact (g_Ekeys _ _ _ _ _ G)|reflexivity].
+    + intros _. exact G.
+  - destruct (Hsrc c m t (or_introl eq_refl)) as [h [Hh [Ec Hm]]].
+    destruct (good_add_ext U S Rg E T c m t o h G Hh Ec Hm (Hcl h Hh)) as [HA HB].
+    cbn [map key3 fst snd].
+    destruct (in_dec key_dec (m, t) (map ekey E)) as [Hin|Hnin].
+    + rewrite (HA Hin). intros H. inversion H; subst. split; [|discriminate].
+      split; [discriminate|]. intros Hn. exfalso. exact (not_NoDup_app_in _ _ _ Hin Hn).
+    + destruct (HB Hnin) as [T1 [E1 G1]]. rewrite E1. intros H.
+      destruct (IH (E ++ [(c, m, t, o)]) T1 T' r G1) as [I1 I2].
+      * intros c' m' t' H'. apply (Hsrc c' m' t'). now right.
+      * exact H.
+      * rewrite map_app in I1. cbn [map ekey fst snd] in I1. rewrite <- app_assoc in I1, I2. cbn [app] in I1, I2.
+        split; [exact I1|exact I2].
+Qed.
+
+(* ------------------------------------------------------------------------------------------ *)
+(* Import on a good table *)
+
+Definition pp (A : list file) : list name := flat_map (fun d => prefixes (fpkg d)) A.
+
+(* no collision inside the set A of files, nor between a name of A and a package of R *)
+Definition NoClash (A : list file) (R : list name) : Prop :=
+  (forall f f' n, In f A -> In f' A -> f <> f' -> In n (fsyms f) -> ~ In n (fsyms f')) /\
+  (forall f q, In f A -> In q R -> ~ In q (fsyms f)) /\
+  (forall f f' k, In f A -> In f' A -> f <> f' -> In k (ext_keys f) -> ~ In k (ext_keys f')) /\
+  (forall f, In f A -> NoDup (ext_keys f)).
+
+Lemma NoClash_mono A R A' R' : NoClash A R -> incl A' A -> incl R' R -> NoClash A' R'.
+Proof.
+  intros [H1 [H2 [H3 H4]]] HA HR. repeat split.
+  - intros f f' n Hf Hf'. apply H1; auto.
+  - intros f q Hf Hq. apply H2; auto.
+  - intros f f' k Hf Hf'. apply H3; auto.
+  - intros f Hf. apply H4; auto.
+Qed.
+
+Lemma closure_unfold fid pkg deps syms exts :
+  closure (File fid pkg deps syms exts) = File fid pkg deps syms exts :: closure_list deps.
+Proof.
+  reflexivity.
+Qed.
+
+Lemma closure_self g : In g (closure g).
+Proof. destruct g. rewrite closure_unfold. now left. Qed.
+
+Lemma pp_app A B : pp (A ++ B) = pp A ++ pp B.
+Proof. unfold pp. apply flat_map_app. Qed.
+
+Lemma In_pp q A : In q (pp A) <-> exists d, In d A /\ In q (prefixes (fpkg d)).
+Proof. unfold pp. apply in_flat_map. Qed.
+
+Lemma EF_snoc S g : EF (S ++ [g]) = EF S ++ map (fun x => (x, ffid g)) (fexts g).
+Proof. unfold EF. rewrite flat_map_app. cbn [flat_map]. now rewrite app_nil_r. Qed.
+
+Lemma keys_EF k S : In k (map ekey (EF S)) <-> exists f, In f S /\ In k (ext_keys f).
+Proof.
+  unfold EF, ext_keys. rewrite in_map_iff. split.
+  - intros [x [Ek Hx]]. apply in_flat_map in Hx as [f [Hf Hx]]. unfold efacts in Hx.
+    apply in_map_iff in Hx as [y [Ey Hy]]. subst x. exists f. split; [exact Hf|].
+    apply in_map_iff. exists y. split; [|exact Hy]. subst k. reflexivity.
+  - intros [f [Hf Hk]]. apply in_map_iff in Hk as [y [Ey Hy]].
+    exists (y, ffid f). split; [subst k; reflexivity|]. apply in_flat_map. exists f. split; [exact Hf|].
+    unfold efacts. apply in_map_iff. exists y. auto.
+Qed.
+
+Lemma check_syms_some syms tbl e :
+  check_syms syms tbl = Some e -> exists x e', In x syms /\ sym_find x tbl = Some e'.
+Proof.
+  induction syms as [|x r IH]; cbn [check_syms]; [discriminate|].
+  destruct (sym_find x tbl) as [e'|] eqn:E.
+  - intros _. exists x, e'. split; [now left|exact E].
+  - intros H. destruct (IH H) as [y [e' [Hy He]]]. exists y, e'. split; [now right|exact He].
+Qed.
+
+Section import_good.
+  Variable U : list file.
+  Hypothesis HW : wf_universe U.
+  Hypothesis HU : forall f d, In f U -> In d (closure f) -> In d U.
+
+  Definition Pimp (g : file) : Prop :=
+    In g U -> forall S Rg T T' r,
+    Good U S Rg (EF S) T -> import g T = (T', r) ->
+    (r = Ok -> exists S' Rg', Good U S' Rg' (EF S') T' /\
+                (forall x, In x S' <-> In x S \/ In x (closure g)) /\
+                (forall q, In q Rg' <-> In q Rg \/ In q (pp (closure g)))) /\
+    (NoClash (S ++ closure g) (Rg ++ pp (closure g)) -> r = Ok).
+
+  Lemma import_list_good ds :
+    Forall Pimp ds -> (forall d, In d ds -> In d U) ->
+    forall S Rg T T2 r2, Good U S Rg (EF S) T -> import_list import ds T = (T2, r2) ->
+    (r2 = Ok -> exists S2 Rg2, Good U S2 Rg2 (EF S2) T2 /\
+                 (forall x, In x S2 <-> In x S \/ In x (closure_list ds)) /\
+                 (forall q, In q Rg2 <-> In q Rg \/ In q (pp (closure_list ds)))) /\
+    (NoClash (S ++ closure_list ds) (Rg ++ pp (closure_list ds)) -> r2 = Ok).
+  Proof.
+    intros HP. induction HP as [|d ds Hd _ IH]; intros HdU S Rg T T2 r2 G; cbn [import_list].
+    - intros H. inversion H; subst. split; [|reflexivity]. intros _. exists S, Rg. split; [exact G|].
+      cbn. split; intros x; tauto.
+    - destruct (import d T) as [Td rd] eqn:Ed.
+      destruct (Hd (HdU d (or_introl eq_refl)) S Rg T Td rd G Ed) as [D1 D2].
+      unfold closure_list. cbn [flat_map]. fold (closure_list ds). rewrite pp_app.
+      destruct rd as [|ed].
+      + destruct (D1 eq_refl) as [S' [Rg' [G' [HS' HR']]]]. intros Hl.
+        destruct (IH (fun d' Hd' => HdU d' (or_intror Hd')) S' Rg' Td T2 r2 G' Hl) as [I1 I2]. split.
+        * intros Hr. destruct (I1 Hr) as [S2 [Rg2 [G2 [HS2 HR2]]]]. exists S2, Rg2. split; [exact G2|].
+          split.
+          -- intros x. rewrite HS2, HS', in_app_iff. tauto.
+          -- intros q. rewrite HR2, HR', in_app_iff. tauto.
+        * intros NC. apply I2. eapply NoClash_mono; [exact NC| |].
+          -- intros x Hx. apply in_app_iff in Hx as [Hx|Hx].
+             ++ apply HS' in Hx as [Hx|Hx]; apply in_app_iff; [now left|right; apply in_app_iff; now left].
+             ++ apply in_app_iff. right. apply in_app_iff. now right.
+          -- intros q Hq. apply in_app_iff in Hq as [Hq|Hq].
+             ++ apply HR' in Hq as [Hq|Hq]; apply in_app_iff; [now left|right; apply in_app_iff; now left].
+             ++ apply in_app_iff. right. apply in_app_iff. now right.
+      + intros H. inversion H; subst. split; [discriminate|]. intros NC. exfalso.
+        assert (Err ed = Ok); [|discriminate]. apply D2. eapply NoClash_mono; [exact NC| |].
+        * intros x Hx. apply in_app_iff in Hx as [Hx|Hx]; apply in_app_iff; [now left|right; apply in_app_iff; now left].
+        * intros q Hq. apply in_app_iff in Hq as [Hq|Hq]; apply in_app_iff; [now left|right; apply in_app_iff; now left].
+  Qed.
+
+  Lemma import_good : forall g, Pimp g.
+  Proof.
+    induction g as [fid pkg deps syms exts IHdeps] using file_ind2.
+    intros HgU S Rg T T' r G. unfold import. rewrite import_gen_unfold. fold import. unfold import_body.
+    set (g := File fid pkg deps syms exts) in *.
+    destruct HW as [W1 W2].
+    assert (Hcl : forall S0 Rg0 E0 T0, Good U S0 Rg0 E0 T0 -> forall f, In f S0 -> names_closed f).
+    { intros S0 Rg0 E0 T0 G0 f Hf. apply W2. exact (g_sub _ _ _ _ _ G0 f Hf). }
+    assert (Hclg : names_closed g) by (apply W2; exact HgU).
+    assert (Hcg : closure g = g :: closure_list deps) by apply closure_unfold.
+    assert (HdepsU : forall d, In d deps -> In d U).
+    { intros d Hd. apply (HU g d HgU). rewrite Hcg. right. unfold closure_list. apply in_flat_map.
+      exists d. split; [exact Hd|apply closure_self]. }
+    assert (Hppg : forall q, In q (pp (closure g)) <-> In q (prefixes pkg) \/ In q (pp (closure_list deps))).
+    { intros q. rewrite Hcg. unfold pp at 1. cbn [flat_map]. rewrite in_app_iff. reflexivity. }
+    destruct (import_packages T fid pkg) as [T1 r1] eqn:Ep.
+    pose proof (import_packages_good U S Rg (EF S) T fid pkg T1 r1 (Hcl _ _ _ _ G) G Ep) as L1.
+    destruct r1 as [x|e1].
+    2:{ intros H. inversion H; subst. split; [discriminate|]. intros [_ [NC2 _]]. exfalso.
+        destruct L1 as [q [f [Hq [Hf Hn]]]]. apply (NC2 f q); [apply in_app_iff; now left| |exact Hn].
+        apply in_app_iff. right. apply Hppg. now left. }
+    destruct L1 as [-> [Rg1 [G1 HR1]]].
+    destruct (mem_N fid (n_files (get_node T1 pkg))) eqn:Em.
+    { (* already imported *)
+      intros H. inversion H; subst T' r. split; [|reflexivity]. intros _.
+      apply mem_N_In in Em. apply (g_files _ _ _ _ _ G1) in Em as [f [Hf [Ef Ei]]].
+      assert (f = g) by (apply W1; [exact (g_sub _ _ _ _ _ G1 f Hf)|exact HgU|exact Ei]). subst f.
+      exists S, Rg1. split; [exact G1|]. split.
+      - intros x. split; [now left|]. intros [Hx|Hx]; [exact Hx|]. exact (g_dep _ _ _ _ _ G1 g x Hf Hx).
+      - intros q. rewrite HR1, Hppg. split; [tauto|]. intros [Hq|[Hq|Hq]]; auto. left.
+        apply In_pp in Hq as [d [Hd Hq]]. apply (g_rgS _ _ _ _ _ G d q); [|exact Hq].
+        apply (g_dep _ _ _ _ _ G g d Hf). rewrite Hcg. now right. }
+    destruct (import_list import deps T1) as [T2 r2] eqn:Ed.
+    destruct (import_list_good deps IHdeps HdepsU S Rg1 T1 T2 r2 G1 Ed) as [LD1 LD2].
+    destruct r2 as [|e2].
+    2:{ intros H. inversion H; subst. split; [discriminate|]. intros NC. exfalso.
+        assert (Err e2 = Ok); [|discriminate]. apply LD2. eapply NoClash_mono; [exact NC| |].
+        - intros x Hx. apply in_app_iff in Hx as [Hx|Hx]; apply in_app_iff; [now left|right].
+          rewrite Hcg. now right.
+        - intros q Hq. apply in_app_iff. apply in_app_iff in Hq as [Hq|Hq].
+          + apply HR1 in Hq as [Hq|Hq]; [now left|right; apply Hppg; now left].
+          + right. apply Hppg. now right. }
+    destruct (LD1 eq_refl) as [S2 [Rg2 [G2 [HS2 HR2]]]].
+    assert (HRg2 : forall q, In q Rg2 <-> In q Rg \/ In q (pp (closure g))).
+    { intros q. rewrite HR2, HR1, Hppg. tauto. }
+    assert (HinclA : incl (S2 ++ [g]) (S ++ closure g)).
+    { intros x Hx. apply in_app_iff. apply in_app_iff in Hx as [Hx|[<-|[]]].
+      - apply HS2 in Hx as [Hx|Hx]; [now left|right; rewrite Hcg; now right].
+      - right. apply closure_self. }
+    assert (HinclR : incl Rg2 (Rg ++ pp (closure g))).
+    { intros q Hq. apply in_app_iff. now apply HRg2. }
+    unfold import_file_node.
+    destruct (mem_N fid (n_files (get_node T2 pkg))) eqn:Em2.
+    { (* imported by the dependencies (cannot happen for real imports, harmless) *)
+      intros H. inversion H; subst T' r. split; [|reflexivity]. intros _.
+      apply mem_N_In in Em2. apply (g_files _ _ _ _ _ G2) in Em2 as [f [Hf [Ef Ei]]].
+      assert (f = g) by (apply W1; [exact (g_sub _ _ _ _ _ G2 f Hf)|exact HgU|exact Ei]). subst f.
+      exists S2, Rg2. split; [exact G2|]. split; [|exact HRg2].
+      intros x. rewrite HS2, Hcg. cbn [In]. split; [tauto|]. intros [Hx|[<-|Hx]]; auto.
+      apply HS2 in Hf. exact Hf. }
+    assert (HgS2 : ~ In g S2).
+    { intros Hg. assert (In fid (n_files (get_node T2 pkg))).
+      { apply (g_files _ _ _ _ _ G2). exists g. auto. }
+      apply mem_N_In in H. congruence. }
+    destruct (check_syms syms (n_symbols (get_node T2 pkg))) as [e|] eqn:Ec.
+    { intros H. inversion H; subst. split; [discriminate|]. intros [NC1 [NC2 _]]. exfalso.
+      destruct (check_syms_some _ _ _ Ec) as [x [e' [Hx He]]]. destruct (e_pkg e') eqn:Epk.
+      - apply (NC2 g x); [apply in_app_iff; right; apply closure_self| |exact Hx].
+        apply HinclR. pose proof (g_sympkg _ _ _ _ _ G2 pkg x e' He Epk) as Hch.
+        apply (g_child _ _ _ _ _ G2) in Hch. tauto.
+      - destruct (g_symfile _ _ _ _ _ G2 pkg x e' He Epk) as [f [Hf [_ [Hn _]]]].
+        apply (NC1 f g x); [apply HinclA, in_app_iff; now left|apply in_app_iff; right; apply closure_self| |exact Hn|exact Hx].
+        intros ->. contradiction. }
+    (* commit *)
+    assert (Hpk2 : forall q, In q (prefixes (fpkg g)) -> In q Rg2).
+    { intros q Hq. apply HR2. left. apply HR1. now right. }
+    assert (Hnoclash : forall n, In n (fsyms g) -> (forall f, In f S2 -> ~ In n (fsyms f)) /\ ~ In n Rg2).
+    { assert (Hall : forall x, In x syms -> sym_find x (n_symbols (get_node T2 pkg)) = None)
+        by (apply check_syms_none; exact Ec).
+      assert (Hno : ~ exists n, In n (fsyms g) /\ ((exists f, In f S2 /\ In n (fsyms f)) \/ In n Rg2)).
+      { intros Hex. destruct (clash_routed U S2 Rg2 (EF S2) T2 g G2 (Hcl _ _ _ _ G2) Hclg Hpk2 Hex) as [n' [Hn' Hs]].
+        apply Hs. apply Hall. exact Hn'. }
+      intros n Hn. split.
+      - intros f Hf Hnf. apply Hno. exists n. split; [exact Hn|]. left. exists f. auto.
+      - intros HnR. apply Hno. exists n. split; [exact Hn|]. now right. }
+    assert (Hdeps2 : forall d, In d (closure g) -> d = g \/ In d S2).
+    { intros d Hd. rewrite Hcg in Hd. destruct Hd as [<-|Hd]; [now left|]. right. apply HS2. now right. }
+    destruct (good_commit U S2 Rg2 (EF S2) T2 g G2 HgU Hpk2 Hdeps2 Hnoclash) as [_ G3].
+    cbn [fpkg ffid fsyms g] in G3.
+    destruct (add_exts (set_node T2 pkg (add_file (commit_syms (get_node T2 pkg) fid syms) fid)) fid exts)
+      as [T4 r4] eqn:Ea.
+    assert (Hsrc : forall c m t, In (c, m, t) exts -> exists h, In h (S2 ++ [g]) /\ fpkg h = c /\ In m (fsyms h)).
+    { intros c m t Hx. destruct (proj2 (W2 g HgU) c m t Hx) as [h [Hh H3]]. exists h. split; [|exact H3].
+      apply in_app_iff. destruct (Hdeps2 h Hh) as [->|Hh2]; [right; now left|now left]. }
+    destruct (add_exts_good U (S2 ++ [g]) Rg2 fid (Hcl _ _ _ _ G3) exts (EF S2) _ T4 r4 G3 Hsrc Ea) as [I1 I2].
+    intros H. inversion H; subst T' r. split.
+    - intros Hr. exists (S2 ++ [g]), Rg2. split; [|split; [|exact HRg2]].
+      + rewrite EF_snoc. exact (I2 Hr).
+      + intros x. rewrite in_app_iff, HS2, Hcg. cbn [In]. split; [intros [[H1|H1]|[H1|[]]]; auto|].
+        intros [H1|[H1|H1]]; auto.
+    - intros [_ [_ [NC3 NC4]]]. apply I1. apply NoDup_app_intro.
+      + exact (g_Ekeys _ _ _ _ _ G2).
+      + apply (NC4 g). apply in_app_iff. right. apply closure_self.
+      + intros k Hk Hk'. apply keys_EF in Hk as [f [Hf Hkf]].
+        apply (NC3 f g k); [apply HinclA, in_app_iff; now left|apply in_app_iff; right; apply closure_self| |exact Hkf|exact Hk'].
+        intros ->. contradiction.
+  Qed.
+End import_good.
+
+(* ------------------------------------------------------------------------------------------ *)
+(* lookups on a good table *)
+
+Section lookups.
+  Variables (U S : list file) (Rg : list name) (E : list (name * name * Z * N)) (T : table).
+  Hypothesis G : Good U S Rg E T.
+  Hypothesis HclS : forall f, In f S -> names_closed f.
+
+  (* getPackage(name, false) stops at the longest registered prefix *)
+  Lemma get_package_longest : forall rest base,
+    reg Rg base ->
+    exists r1 r2, rest = r1 ++ r2 /\
+      get_package_loop T base (map (app base) (prefixes rest)) false = Some (base ++ r1) /\
+      reg Rg (base ++ r1) /\
+      (r2 = [] \/ exists x r3, r2 = x :: r3 /\ ~ In (base ++ r1 ++ [x]) Rg).
+  Proof.
+    induction rest as [|c r IH]; intros base Hb.
+    - exists [], []. cbn. rewrite app_nil_r. repeat split; auto.
+    - rewrite prefixes_snoc_map. cbn [get_package_loop].
+      destruct (mem_name (base ++ [c]) (n_children (get_node T base))) eqn:Em.
+      + apply mem_name_In in Em. apply (g_child _ _ _ _ _ G) in Em as [Hq _].
+        destruct (IH (base ++ [c]) (or_intror Hq)) as [r1 [r2 [E1 [E2 [E3 E4]]]]].
+        exists (c :: r1), r2. rewrite <- !app_assoc in *. cbn [app] in *. repeat split; auto.
+        * now rewrite E1.
+        * destruct E4 as [E4|[x [r3 [E4 E5]]]]; [now left|right]. exists x, r3. split; [exact E4|].
+          rewrite <- app_assoc in E5. exact E5.
+      + exists [], (c :: r). rewrite app_nil_r. repeat split; auto. right. exists c, r. split; [reflexivity|].
+        cbn [app]. intros Hq. apply (child_of_reg _ _ _ _ _ G) in Hq. apply mem_name_In in Hq. congruence.
+  Qed.
+
+  (* a name of an installed file is looked up in the node of the package of that file *)
+  Lemma route f n : In f S -> In n (fsyms f) -> get_package T n false = Some (fpkg f).
+  Proof.
+    intros Hf Hn. unfold get_package. rewrite <- (map_app_nil (prefixes n)).
+    destruct (get_package_longest n [] (or_introl eq_refl)) as [r1 [r2 [E1 [E2 [E3 E4]]]]].
+    rewrite E2. cbn [app] in *. f_equal.
+    destruct (HclS f Hf n Hn) as [r [Hr [En Hcl]]]. rewrite E1 in En.
+    apply app_eq_app in En as [l [[H1 H2]|[H1 H2]]].
+    - (* r1 = fpkg f ++ l *)
+      destruct l as [|a l]; [now rewrite app_nil_r in H1|]. exfalso.
+      apply (g_cf2 _ _ _ _ _ G f r1 Hf).
+      + destruct E3 as [E3|E3]; [|exact E3]. rewrite H1 in E3. destruct (fpkg f); discriminate.
+      + rewrite H1. apply (Hcl (a :: l) r2); [exact H2|discriminate].
+    - (* fpkg f = r1 ++ l *)
+      destruct l as [|a l]; [now rewrite app_nil_r in H1|]. exfalso.
+      destruct E4 as [->|[x [r3 [-> Hx]]]]; [discriminate|]. inversion H2; subst x r3.
+      apply Hx. apply (g_rgS _ _ _ _ _ G f _ Hf). apply In_prefixes.
+      split; [destruct r1; discriminate|]. exists l. rewrite H1. now rewrite <- app_assoc.
+  Qed.
+
+  Lemma lookup_good n o :
+    lookup T n = Some o <-> exists f, In f S /\ In n (fsyms f) /\ ffid f = o.
+  Proof.
+    split.
+    - unfold lookup, get_package. rewrite <- (map_app_nil (prefixes n)).
+      destruct (get_package_longest n [] (or_introl eq_refl)) as [r1 [r2 [E1 [E2 [E3 E4]]]]].
+      rewrite E2. cbn [app] in *.
+      destruct (sym_find n (n_symbols (get_node T r1))) as [e|] eqn:Es; [|discriminate].
+      cbn [option_map]. intros H. inversion H; subst o. destruct (e_pkg e) eqn:Ep.
+      + exfalso. pose proof (g_sympkg _ _ _ _ _ G r1 n e Es Ep) as Hch.
+        apply (g_child _ _ _ _ _ G) in Hch as [HnR Hp].
+        destruct (g_rg1 _ _ _ _ _ G n HnR) as [Hne _].
+        destruct (name_snoc_cases n) as [->|[c [x En]]]; [congruence|].
+        rewrite En in Hp. rewrite parent_snoc in Hp. subst c.
+        rewrite En in E1. rewrite <- (app_nil_r (r1 ++ [x])) in E1 at 1. rewrite <- app_assoc in E1.
+        apply app_inv_head in E1. destruct E4 as [->|[y [r3 [-> Hy]]]]; [discriminate|].
+        inversion E1; subst y r3. apply Hy. now rewrite <- En.
+      + destruct (g_symfile _ _ _ _ _ G r1 n e Es Ep) as [f [Hf [_ [Hn Ho]]]]. exists f. auto.
+    - intros [f [Hf [Hn Ho]]]. unfold lookup. rewrite (route f n Hf Hn).
+      rewrite (g_filesym _ _ _ _ _ G f n Hf Hn). cbn. now rewrite Ho.
+  Qed.
+
+  Lemma lookup_ext_good m t o :
+    lookup_ext T m t = Some o <-> exists c, In (c, m, t, o) E.
+  Proof.
+    split.
+    - unfold lookup_ext. destruct (get_package T m false) as [c|]; [|discriminate].
+      intros H. exists c. now apply (g_ext _ _ _ _ _ G).
+    - intros [c H]. destruct (g_Esrc _ _ _ _ _ G _ _ _ _ H) as [h [Hh [Ec Hm]]].
+      unfold lookup_ext. rewrite (route h m Hh Hm), Ec. now apply (g_ext _ _ _ _ _ G).
+  Qed.
+End lookups.
+
+(* ------------------------------------------------------------------------------------------ *)
+(* sequences of imports from the empty table; the theorems *)
+
+Lemma closure_trans : forall g f d, In f (closure g) -> In d (closure f) -> In d (closure g).
+Proof.
+  induction g as [fid pkg deps syms exts IH] using file_ind2. intros f d Hf Hd.
+  rewrite closure_unfold in *. destruct Hf as [<-|Hf].
+  - rewrite closure_unfold in Hd. exact Hd.
+  - right. unfold closure_list in *. apply in_flat_map in Hf as [d' [Hd' Hf]].
+    apply in_flat_map. exists d'. split; [exact Hd'|].
+    rewrite Forall_forall in IH. exact (IH d' Hd' f d Hf Hd).
+Qed.
+
+Lemma closure_list_closed fs f d : In f (closure_list fs) -> In d (closure f) -> In d (closure_list fs).
+Proof.
+  unfold closure_list. intros Hf Hd. apply in_flat_map in Hf as [g [Hg Hf]].
+  apply in_flat_map. exists g. split; [exact Hg|]. exact (closure_trans g f d Hf Hd).
+Qed.
+
+Lemma map_ekey_efacts f : map ekey (efacts f) = ext_keys f.
+Proof. unfold efacts, ext_keys. rewrite map_map. apply map_ext. intros [[c m] t]. reflexivity. Qed.
+
+Lemma keys_EF_split l1 f l2 :
+  map ekey (EF (l1 ++ f :: l2)) = map ekey (EF l1) ++ ext_keys f ++ map ekey (EF l2).
+Proof.
+  unfold EF. rewrite flat_map_app. cbn [flat_map]. rewrite !map_app. now rewrite map_ekey_efacts.
+Qed.
+
+Lemma good_noclash U S Rg T : Good U S Rg (EF S) T -> NoClash S Rg.
+Proof.
+  intros G. repeat split.
+  - intros f f' n Hf Hf' Hne Hn Hn'. apply Hne. exact (g_cf1 _ _ _ _ _ G f f' n Hf Hf' Hn Hn').
+  - apply (g_cf2 _ _ _ _ _ G).
+  - intros f f' k Hf Hf' Hne Hk Hk'. pose proof (g_Ekeys _ _ _ _ _ G) as ND.
+    destruct (in_split f S Hf) as [l1 [l2 ES]]. rewrite ES in ND, Hf'. rewrite keys_EF_split in ND.
+    apply in_app_iff in Hf' as [Hf'|[Hf'|Hf']]; [|congruence|].
+    + destruct (NoDup_app_elim _ _ ND) as [_ [_ Hd]]. apply (Hd k).
+      * apply keys_EF. exists f'. auto.
+      * apply in_app_iff. now left.
+    + destruct (NoDup_app_elim _ _ ND) as [_ [ND2 _]]. destruct (NoDup_app_elim _ _ ND2) as [_ [_ Hd]].
+      apply (Hd k Hk). apply keys_EF. exists f'. auto.
+  - intros f Hf. pose proof (g_Ekeys _ _ _ _ _ G) as ND.
+    destruct (in_split f S Hf) as [l1 [l2 ES]]. rewrite ES in ND. rewrite keys_EF_split in ND.
+    destruct (NoDup_app_elim _ _ ND) as [_ [ND2 _]]. destruct (NoDup_app_elim _ _ ND2) as [ND3 _]. exact ND3.
+Qed.
+
+Section runs.
+  Variable U : list file.
+  Hypothesis HW : wf_universe U.
+  Hypothesis HU : forall f d, In f U -> In d (closure f) -> In d U.
+
+  Lemma run_imports_good : forall fs S Rg T T' l,
+    (forall f, In f fs -> In f U) -> Good U S Rg (EF S) T ->
+    run_ops T (map OImport fs) = (T', l) ->
+    (any_err l = false ->
+     exists S' Rg', Good U S' Rg' (EF S') T' /\
+                    (forall x, In x S' <-> In x S \/ In x (closure_list fs)) /\
+                    (forall q, In q Rg' <-> In q Rg \/ In q (pp (closure_list fs)))) /\
+    (NoClash (S ++ closure_list fs) (Rg ++ pp (closure_list fs)) -> any_err l = false).
+  Proof.
+    unfold run_ops. induction fs as [|f fs IH]; intros S Rg T T' l HfU G; cbn [map run_ops_with].
+    - intros H. inversion H; subst. split; [|reflexivity]. intros _. exists S, Rg. split; [exact G|].
+      cbn. split; intros x; tauto.
+    - cbn [do_op_with]. destruct (import f T) as [T1 r1] eqn:Ei.
+      destruct (run_ops_with import T1 (map OImport fs)) as [T2 l2] eqn:Er.
+      intros H. inversion H; subst T' l. clear H.
+      destruct (import_good U HW HU f (HfU f (or_introl eq_refl)) S Rg T T1 r1 G Ei) as [D1 D2].
+      unfold closure_list. cbn [flat_map]. fold (closure_list fs). rewrite pp_app.
+      destruct r1 as [|e1]; cbn [any_err].
+      + destruct (D1 eq_refl) as [S1 [Rg1 [G1 [HS1 HR1]]]].
+        destruct (IH S1 Rg1 T1 T2 l2 (fun f' Hf' => HfU f' (or_intror Hf')) G1 Er) as [I1 I2]. split.
+        * intros Hl. destruct (I1 Hl) as [S2 [Rg2 [G2 [HS2 HR2]]]]. exists S2, Rg2. split; [exact G2|]. split.
+          -- intros x. rewrite HS2, HS1, in_app_iff. tauto.
+          -- intros q. rewrite HR2, HR1, in_app_iff. tauto.
+        * intros NC. apply I2. eapply NoClash_mono; [exact NC| |].
+          -- intros x Hx. apply in_app_iff in Hx as [Hx|Hx].
+             ++ apply HS1 in Hx as [Hx|Hx]; apply in_app_iff; [now left|right; apply in_app_iff; now left].
+             ++ apply in_app_iff. right. apply in_app_iff. now right.
+          -- intros q Hq. apply in_app_iff in Hq as [Hq|Hq].
+             ++ apply HR1 in Hq as [Hq|Hq]; apply in_app_iff; [now left|right; apply in_app_iff; now left].
+             ++ apply in_app_iff. right. apply in_app_iff. now right.
+      + split; [discriminate|]. intros NC. exfalso.
+        assert (Err e1 = Ok); [|discriminate]. apply D2. eapply NoClash_mono; [exact NC| |].
+        * intros x Hx. apply in_app_iff in Hx as [Hx|Hx]; apply in_app_iff; [now left|right; apply in_app_iff; now left].
+        * intros q Hq. apply in_app_iff in Hq as [Hq|Hq]; apply in_app_iff; [now left|right; apply in_app_iff; now left].
+  Qed.
+End runs.
+
+Lemma noclash_collides U :
+  wf_universe U -> (NoClash U (pp U) <-> ~ collides U).
+Proof.
+  intros [W1 W2]. split.
+  - intros [N1 [N2 [N3 N4]]] [[f [g [Hf [Hg [Hne [[n [Hn [Hn'|Hn']]]|[m [t [Hk Hk']]]]]]]]]|[f [Hf Hd]]].
+    + exact (N1 f g n Hf Hg Hne Hn Hn').
+    + apply (N2 f n Hf); [|exact Hn]. apply In_pp. exists g. auto.
+    + exact (N3 f g (m, t) Hf Hg Hne Hk Hk').
+    + exact (Hd (N4 f Hf)).
+  - intros Hnc. repeat split.
+    + intros f f' n Hf Hf' Hne Hn Hn'. apply Hnc. left. exists f, f'. repeat split; auto.
+      left. exists n. auto.
+    + intros f q Hf Hq Hn. apply In_pp in Hq as [d [Hd Hq]].
+      destruct (list_eq_dec N.eq_dec (ffid f :: nil) (ffid d :: nil)) as [Efd|Efd].
+      * inversion Efd as [Efd']. assert (f = d) by (apply W1; auto). subst d.
+        destruct (proj1 (W2 f Hf) q Hn) as [r [Hr [Eq _]]].
+        apply In_prefixes in Hq as [_ [r' Er']]. rewrite Eq in Er'. rewrite <- app_assoc in Er'.
+        rewrite <- (app_nil_r (fpkg f)) in Er' at 1. apply app_inv_head in Er'.
+        destruct r; [congruence|discriminate].
+      * apply Hnc. left. exists f, d. repeat split; auto; [congruence|]. left. exists q. auto.
+    + intros f f' [m t] Hf Hf' Hne Hk Hk'. apply Hnc. left. exists f, f'. repeat split; auto.
+      right. exists m, t. auto.
+    + intros f Hf. destruct (ListDec.NoDup_dec key_dec (ext_keys f)) as [H|H]; [exact H|].
+      exfalso. apply Hnc. right. exists f. auto.
+Qed.
+
+Lemma collides_ext U U' : (forall x, In x U <-> In x U') -> collides U -> collides U'.
+Proof.
+  intros HE [[f [g [Hf [Hg H]]]]|[f [Hf H]]].
+  - left. exists f, g. rewrite <- !HE. auto.
+  - right. exists f. rewrite <- HE. auto.
+Qed.
+
+Lemma wf_universe_ext U U' : (forall x, In x U <-> In x U') -> wf_universe U -> wf_universe U'.
+Proof.
+  intros HE [W1 W2]. split.
+  - intros f g Hf Hg. apply W1; now apply HE.
+  - intros f Hf. apply W2. now apply HE.
+Qed.
+
+Lemma closure_list_perm fs fs' :
+  Permutation fs fs' -> forall x, In x (closure_list fs) <-> In x (closure_list fs').
+Proof.
+  intros HP x. unfold closure_list. rewrite !in_flat_map. split; intros [g [Hg Hx]]; exists g; split; auto.
+  - eapply Permutation_in; eauto.
+  - eapply Permutation_in; [apply Permutation_sym|]; eauto.
+Qed.
+
+(* the three theorems *)
+
+Lemma collision_iff_reported_lemma fs T l :
+  wf_universe (closure_list fs) ->
+  run_ops [] (map OImport fs) = (T, l) ->
+  (any_err l = false <-> ~ collides (closure_list fs)).
+Proof.
+  intros HW Hr. set (U := closure_list fs) in *.
+  assert (HU : forall f d, In f U -> In d (closure f) -> In d U) by (intros f d; apply closure_list_closed).
+  assert (HfU : forall f, In f fs -> In f U).
+  { intros f Hf. unfold U, closure_list. apply in_flat_map. exists f. split; [exact Hf|apply closure_self]. }
+  destruct (run_imports_good U HW HU fs [] [] [] T l HfU (good_empty U) Hr) as [R1 R2].
+  cbn [app] in R2. rewrite <- (noclash_collides U HW). split.
+  - intros Hl. destruct (R1 Hl) as [S' [Rg' [G' [HS' HR']]]].
+    eapply NoClash_mono; [exact (good_noclash _ _ _ _ G')| |].
+    + intros x Hx. apply HS'. now right.
+    + intros q Hq. apply HR'. now right.
+  - exact R2.
+Qed.
+
+Lemma partition_equiv_lemma fs parts T1 l1 T2 l2 :
+  wf_universe (closure_list fs) -> Permutation (concat parts) fs ->
+  run_ops [] (map OImport fs) = (T1, l1) ->
+  run_ops [] (map OImport (concat parts)) = (T2, l2) ->
+  any_err l2 = any_err l1.
+Proof.
+  intros HW HP H1 H2.
+  pose proof (closure_list_perm _ _ HP) as HE.
+  assert (HW' : wf_universe (closure_list (concat parts))).
+  { eapply wf_universe_ext; [|exact HW]. intros x. symmetry. apply HE. }
+  pose proof (collision_iff_reported_lemma fs T1 l1 HW H1) as C1.
+  pose proof (collision_iff_reported_lemma _ T2 l2 HW' H2) as C2.
+  destruct (any_err l1) eqn:E1, (any_err l2) eqn:E2; try reflexivity; exfalso.
+  - assert (Hn : ~ collides (closure_list (concat parts))) by (apply C2; reflexivity).
+    assert (true = false); [|discriminate]. apply C1. intros Hc. apply Hn. eapply collides_ext; [|exact Hc].
+    intros x. symmetry. apply HE.
+  - assert (Hn : ~ collides (closure_list fs)) by (apply C1; reflexivity).
+    assert (true = false); [|discriminate]. apply C2. intros Hc. apply Hn. eapply collides_ext; [|exact Hc].
+    exact HE.
+Qed.
+
+Lemma import_commutes_lemma fs fs' T1 l1 T2 l2 :
+  wf_universe (closure_list fs) -> Permutation fs fs' ->
+  ~ collides (closure_list fs) ->
+  run_ops [] (map OImport fs) = (T1, l1) ->
+  run_ops [] (map OImport fs') = (T2, l2) ->
+  (forall n, lookup T2 n = lookup T1 n) /\ (forall m t, lookup_ext T2 m t = lookup_ext T1 m t).
+Proof.
+  intros HW HP Hnc H1 H2.
+  pose proof (closure_list_perm _ _ HP) as HE.
+  assert (HW' : wf_universe (closure_list fs')) by (eapply wf_universe_ext; [exact HE|exact HW]).
+  assert (Hnc' : ~ collides (closure_list fs')).
+  { intros Hc. apply Hnc. eapply collides_ext; [|exact Hc]. intros x. symmetry. apply HE. }
+  assert (Good1 : forall fs0 T0 l0, wf_universe (closure_list fs0) -> ~ collides (closure_list fs0) ->
+            run_ops [] (map OImport fs0) = (T0, l0) ->
+            exists S' Rg', Good (closure_list fs0) S' Rg' (EF S') T0 /\
+                           (forall x, In x S' <-> In x (closure_list fs0))).
+  { intros fs0 T0 l0 HW0 Hnc0 Hr.
+    assert (HU : forall f d, In f (closure_list fs0) -> In d (closure f) -> In d (closure_list fs0))
+      by (intros f d; apply closure_list_closed).
+    assert (HfU : forall f, In f fs0 -> In f (closure_list fs0)).
+    { intros f Hf. unfold closure_list. apply in_flat_map. exists f. split; [exact Hf|apply closure_self]. }
+    destruct (run_imports_good _ HW0 HU fs0 [] [] [] T0 l0 HfU (good_empty _) Hr) as [R1 R2].
+    cbn [app] in R2. apply (noclash_collides _ HW0) in Hnc0.
+    destruct (R1 (R2 Hnc0)) as [S' [Rg' [G' [HS' _]]]]. exists S', Rg'. split; [exact G'|].
+    intros x. rewrite HS'. cbn. tauto. }
+  destruct (Good1 fs T1 l1 HW Hnc H1) as [S1 [Rg1 [G1 HS1]]].
+  destruct (Good1 fs' T2 l2 HW' Hnc' H2) as [S2 [Rg2 [G2 HS2]]].
+  assert (Hcl1 : forall f, In f S1 -> names_closed f).
+  { intros f Hf. apply (proj2 HW). now apply HS1. }
+  assert (Hcl2 : forall f, In f S2 -> names_closed f).
+  { intros f Hf. apply (proj2 HW'). now apply HS2. }
+  assert (HS12 : forall x, In x S1 <-> In x S2).
+  { intros x. rewrite HS1, HS2. apply HE. }
+  split.
+  - intros n.
+    destruct (lookup T1 n) as [o|] eqn:L1.
+    + apply (lookup_good _ _ _ _ _ G1 Hcl1) in L1 as [f [Hf H3]].
+      apply (lookup_good _ _ _ _ _ G2 Hcl2). exists f. split; [now apply HS12|exact H3].
+    + destruct (lookup T2 n) as [o|] eqn:L2; [|reflexivity].
+      apply (lookup_good _ _ _ _ _ G2 Hcl2) in L2 as [f [Hf H3]].
+      assert (lookup T1 n = Some o); [|congruence].
+      apply (lookup_good _ _ _ _ _ G1 Hcl1). exists f. split; [now apply HS12|exact H3].
+  - assert (HEF : forall x, In x (EF S1) <-> In x (EF S2)).
+    { intros x. unfold EF. rewrite !in_flat_map. split; intros [f [Hf Hx]]; exists f; split; auto; now apply HS12. }
+    intros m t.
+    destruct (lookup_ext T1 m t) as [o|] eqn:L1.
+    + apply (lookup_ext_good _ _ _ _ _ G1 Hcl1) in L1 as [c Hc].
+      apply (lookup_ext_good _ _ _ _ _ G2 Hcl2). exists c. now apply HEF.
+    + destruct (lookup_ext T2 m t) as [o|] eqn:L2; [|reflexivity].
+      apply (lookup_ext_good _ _ _ _ _ G2 Hcl2) in L2 as [c Hc].
+      assert (lookup_ext T1 m t = Some o); [|congruence].
+      apply (lookup_ext_good _ _ _ _ _ G1 Hcl1). exists c. now apply HEF.
+Qed.
+
+(* ------------------------------------------------------------------------------------------ *)
+(* the boolean well-formedness test implies the hypothesis of the theorems *)
+
+Lemma file_eqb_eq : forall f g, file_eqb f g = true -> f = g.
+Proof.
+  induction f as [i p d s x IH] using file_ind2. intros [i' p' d' s' x'] H. cbn [file_eqb] in H.
+  apply andb_true_iff in H as [H Hx]. apply andb_true_iff in H as [H Hs].
+  apply andb_true_iff in H as [H Hd]. apply andb_true_iff in H as [Hi Hp].
+  apply N.eqb_eq in Hi. apply name_eqb_eq in Hp. subst i' p'.
+  assert (d = d').
+  { clear Hs Hx. revert d' Hd. induction IH as [|u a Hu _ IHa]; intros [|v b] Hd; try discriminate; [reflexivity|].
+    apply andb_true_iff in Hd as [H1 H2]. f_equal; [now apply Hu|now apply IHa]. }
+  assert (s = s').
+  { clear Hd Hx. revert s' Hs. induction s as [|u a IHa]; intros [|v b] Hs; try discriminate; [reflexivity|].
+    apply andb_true_iff in Hs as [H1 H2]. apply name_eqb_eq in H1. f_equal; [exact H1|now apply IHa]. }
+  assert (x = x').
+  { clear Hd Hs. revert x' Hx. induction x as [|[[c m] t] a IHa]; intros [|[[c' m'] t'] b] Hx; try discriminate; [reflexivity|].
+    apply andb_true_iff in Hx as [H1 H2]. apply andb_true_iff in H1 as [H1 H3].
+    apply andb_true_iff in H1 as [H1 H4]. apply name_eqb_eq in H1, H4. apply Z.eqb_eq in H3.
+    subst. f_equal. now apply IHa. }
+  subst. reflexivity.
+Qed.
+
+Lemma is_prefix_spec p n : is_prefix p n = true -> exists r, n = p ++ r.
+Proof.
+  revert n. induction p as [|a p IH]; intros n H; [exists n; reflexivity|].
+  destruct n as [|b n]; [discriminate|]. cbn in H. apply andb_true_iff in H as [H1 H2].
+  apply N.eqb_eq in H1. subst b. destruct (IH n H2) as [r ->]. exists r. reflexivity.
+Qed.
+
+Lemma names_closed_b_sound f : names_closed_b f = true -> names_closed f.
+Proof.
+  unfold names_closed_b, names_closed. rewrite forallb_forall. intros H n Hn.
+  specialize (H n Hn). apply andb_true_iff in H as [Hp Hq].
+  unfold proper_prefix in Hp. apply andb_true_iff in Hp as [Hp Hl]. apply Nat.ltb_lt in Hl.
+  destruct (is_prefix_spec _ _ Hp) as [r Er]. exists r. split; [|split; [exact Er|]].
+  - intros ->. rewrite app_nil_r in Er. subst n. lia.
+  - intros r1 r2 E1 Hr1. rewrite forallb_forall in Hq.
+    assert (Hin : In (fpkg f ++ r1) (prefixes n)).
+    { apply In_prefixes. split; [destruct (fpkg f); [cbn; exact Hr1|discriminate]|].
+      exists r2. rewrite Er, E1. now rewrite <- app_assoc. }
+    specialize (Hq _ Hin). apply orb_true_iff in Hq as [Hq|Hq]; [|now apply mem_name_In].
+    apply negb_true_iff, Nat.ltb_ge in Hq. rewrite app_length in Hq. destruct r1; [congruence|cbn in Hq; lia].
+Qed.
+
+Lemma exts_resolved_b_sound f : exts_resolved_b f = true -> exts_resolved f.
+Proof.
+  unfold exts_resolved_b, exts_resolved. rewrite forallb_forall. intros H c m t Hx.
+  specialize (H _ Hx). cbn [fst snd] in H. apply existsb_exists in H as [h [Hh H]].
+  apply andb_true_iff in H as [H1 H2]. apply name_eqb_eq in H1. apply mem_name_In in H2. exists h. auto.
+Qed.
+
+Lemma wf_universe_b_sound U : wf_universe_b U = true -> wf_universe U.
+Proof.
+  unfold wf_universe_b. intros H. apply andb_true_iff in H as [H1 H2].
+  rewrite forallb_forall in H1, H2. split.
+  - intros f g Hf Hg E. specialize (H1 f Hf). rewrite forallb_forall in H1. specialize (H1 g Hg).
+    apply orb_true_iff in H1 as [H1|H1]; [|now apply file_eqb_eq].
+    apply negb_true_iff, N.eqb_neq in H1. contradiction.
+  - intros f Hf. specialize (H2 f Hf). apply andb_true_iff in H2 as [H3 H4].
+    split; [now apply names_closed_b_sound|now apply exts_resolved_b_sound].
+Qed.
+
+(* non-vacuity: a well-formed set of files without collision, and one with *)
+Definition xA : file := File 0 [1%N] [] [[1%N; 7%N]; [1%N; 7%N; 8%N]] [].
+Definition xB : file := File 1 [1%N; 2%N] [xA] [[1%N; 2%N; 20%N]] [([1%N], [1%N; 7%N], 100%Z)].
+Definition xC : file := File 2 [3%N] [xA] [[3%N; 20%N]] [([1%N], [1%N; 7%N], 101%Z)].
+Definition xD : file := File 3 [3%N] [xA] [[3%N; 21%N]] [([1%N], [1%N; 7%N], 100%Z)].
+
+Lemma nonvacuous_clean :
+  wf_universe (closure_list [xB; xC]) /\ ~ collides (closure_list [xB; xC]) /\
+  any_err (snd (run_ops [] (map OImport [xB; xC]))) = false /\
+  any_err (snd (run_ops [] (map OImport [xC; xB]))) = false.
+Proof.
+  assert (HW : wf_universe (closure_list [xB; xC])) by (apply wf_universe_b_sound; vm_compute; reflexivity).
+  split; [exact HW|]. split; [|split; vm_compute; reflexivity].
+  destruct (run_ops [] (map OImport [xB; xC])) as [T l] eqn:Hr.
+  apply (collision_iff_reported_lemma _ T l HW Hr).
+  assert (El : l = snd (run_ops [] (map OImport [xB; xC]))) by now rewrite Hr.
+  rewrite El. vm_compute. reflexivity.
+Qed.
+
+Lemma nonvacuous_collision :
+  wf_universe (closure_list [xB; xD]) /\ collides (closure_list [xB; xD]) /\
+  any_err (snd (run_ops [] (map OImport [xB; xD]))) = true /\
+  any_err (snd (run_ops [] (map OImport [xD; xB]))) = true.
+Proof.
+  split; [apply wf_universe_b_sound; vm_compute; reflexivity|]. split; [|split; vm_compute; reflexivity].
+  left. exists xB, xD. split; [vm_compute; tauto|]. split; [vm_compute; tauto|]. split; [discriminate|].
+  right. exists [1%N; 7%N], 100%Z. split; vm_compute; tauto.
+Qed.
